@@ -1,4 +1,5 @@
 import Gofasta.Model.Snps
+import Gofasta.Lemmas.SortSpec
 import Gofasta.Model.Variants
 /-
 C13 — --aggregate frequencies are exactly the per-sequence results, counted.
@@ -100,5 +101,25 @@ theorem insert_keys (k : Snp) : ∀ (m : List (Snp × Nat)),
 
 /-- non-vacuity: two of three rows carry (2,C,T) -/
 example : countOf (2, 67, 84) (countAll [[(2, 67, 84)], [(1, 65, 71), (2, 67, 84)], []]) = 2 := by decide
+
+/-- the aggregate comparator (position, then query allele) is a strict weak order -/
+theorem snpLt_swo : SWO snpLt := by
+  constructor
+  · intro a b h
+    simp only [snpLt, Bool.or_eq_true, decide_eq_true_eq, Bool.and_eq_true, beq_iff_eq] at h
+    simp only [snpLt, Bool.or_eq_false_iff, decide_eq_false_iff_not, Bool.and_eq_false_iff, beq_eq_false_iff_ne]
+    omega
+  · intro a b c h
+    simp only [snpLt, Bool.or_eq_true, decide_eq_true_eq, Bool.and_eq_true, beq_iff_eq] at h ⊢
+    omega
+
+/-- **C13.ordered_by_position** — the rows of the aggregate table are ordered by genomic position (then allele),
+whatever order the counting map was built in; the threshold filter only removes rows -/
+theorem aggregate_sorted (m : List (Snp × Nat)) (keep : Snp × Nat → Bool) :
+    Sorted snpLt ((sortStable snpLt m).filter keep) :=
+  List.Pairwise.filter _ (sorted_sortStable snpLt_swo m)
+
+/-- and nothing is lost or invented by the ordering step: the table is a permutation of the counting map -/
+theorem aggregate_perm (m : List (Snp × Nat)) : (sortStable snpLt m).Perm m := sortStable_perm m
 
 end Gofasta.Props.C13
